@@ -16,6 +16,14 @@ func init() {
 			Calls: []string{"UpdateSnapshots", "ConvertBindingContextList", "prepareBindingContextJsonFile", "prepareMetricsFile",
 				"prepareAdmissionResponseFile", "prepareConversionResponseFile", "prepareObjectPatchFile", "Remove", "Environ",
 				"NewExecutor", "RunAndLogLines", "MetricOperationsFromFile", "ResponseFromFile", "ReadFile"}},
+		// third wave: the readers of the output files (decode loops: when do they stop, what is an error)
+		skelTarget{Name: "operation.MetricOperationsFromReader", File: "pkg/metric_storage/operation/operation.go", Recv: "", Func: "MetricOperationsFromReader",
+			Calls: []string{"NewDecoder", "Decode", "More", "Token", "Buffered", "Unmarshal", "ReadAll"}},
+		skelTarget{Name: "conversion.ResponseFromReader", File: "pkg/webhook/conversion/response.go", Recv: "", Func: "ResponseFromReader",
+			Calls: []string{"NewDecoder", "Decode", "More", "Token", "Buffered", "Unmarshal", "ReadAll"}},
+		// … and the glue between Run and the process: what environment the executor hands over
+		skelTarget{Name: "executor.NewExecutor", File: "pkg/executor/executor.go", Recv: "", Func: "NewExecutor",
+			Calls: []string{"Command", "Environ", "append"}},
 	)
 	factFns = append(factFns, c12Facts)
 }
@@ -43,8 +51,69 @@ func c12SprintfFormats(fd *ast.FuncDecl) []string {
 	return out
 }
 
+// every comparison of app.DebugKeepTmpFilesVar with a string literal in the hook package:
+// "<file> <func> <op> <literal>"
+func c12KeepCompares() (all []string, runLit string) {
+	for _, file := range []string{"pkg/hook/hook.go", "pkg/hook/hook_manager.go"} {
+		f := parse(file)
+		if f == nil {
+			all = append(all, file+" <unparsable>")
+			continue
+		}
+		for _, d := range f.Decls {
+			fd, ok := d.(*ast.FuncDecl)
+			if !ok || fd.Body == nil {
+				continue
+			}
+			ast.Inspect(fd.Body, func(n ast.Node) bool {
+				be, ok := n.(*ast.BinaryExpr)
+				if !ok || (be.Op != token.EQL && be.Op != token.NEQ) {
+					return true
+				}
+				x, y := be.X, be.Y
+				if _, isLit := x.(*ast.BasicLit); isLit {
+					x, y = y, x
+				}
+				bl, isLit := y.(*ast.BasicLit)
+				if !isLit || bl.Kind != token.STRING || !strings.HasSuffix(exprStr(x), "DebugKeepTmpFilesVar") {
+					return true
+				}
+				lit, _ := strconv.Unquote(bl.Value)
+				all = append(all, file[strings.LastIndex(file, "/")+1:]+" "+fd.Name.Name+" "+be.Op.String()+" "+lit)
+				if fd.Name.Name == "Run" && runLit == "" {
+					runLit = lit
+				}
+				return true
+			})
+		}
+	}
+	return all, runLit
+}
+
 func c12Facts(l *leanDefs) {
 	const file = "pkg/hook/hook.go"
+	cmps, runLit := c12KeepCompares()
+	l.def("c12KeepCompares", "List String", leanStrList(cmps), "pkg/hook: comparisons of app.DebugKeepTmpFilesVar")
+	l.def("c12KeepLiteral", "String", strconv.Quote(runLit), file+" Hook.Run")
+	if fd := findFunc("pkg/app/debug.go", "", "DefineDebugFlags"); fd != nil {
+		// the help text of --debug-keep-tmp-files
+		help := ""
+		ast.Inspect(fd.Body, func(n ast.Node) bool {
+			c, ok := n.(*ast.CallExpr)
+			if !ok || len(c.Args) != 2 {
+				return true
+			}
+			if sel, ok := c.Fun.(*ast.SelectorExpr); ok && sel.Sel.Name == "Flag" {
+				if a, ok := c.Args[0].(*ast.BasicLit); ok && a.Value == `"debug-keep-tmp-files"` {
+					if b, ok := c.Args[1].(*ast.BasicLit); ok {
+						help, _ = strconv.Unquote(b.Value)
+					}
+				}
+			}
+			return true
+		})
+		l.def("c12KeepFlagHelp", "String", strconv.Quote(help), "pkg/app/debug.go --debug-keep-tmp-files")
+	}
 	var envs []string
 	for _, f := range c12SprintfFormats(findFunc(file, "Hook", "Run")) {
 		if strings.HasSuffix(f, "=%s") {
